@@ -191,6 +191,13 @@ func runC02(w *vx.W) {
 	var idx int64
 	unknownDef := fitmodel.Def{Local: 2, Global: 0xFF00, Fields: []fitmodel.FieldDef{{Num: 1, Size: 2, Base: fitmodel.Uint16}, {Num: 2, Size: 3, Base: fitmodel.Byte}}}
 	unknownData := fitmodel.Data(2, []byte{0xDE, 0xAD, 0xBE, 0xEF, 0x99})
+	// an unknown message that also carries developer fields (bytes chosen to look like record headers if left unread)
+	unknownDevDef := fitmodel.Def{Local: 6, Global: 0xFE10, Fields: []fitmodel.FieldDef{{Num: 0, Size: 1, Base: fitmodel.Uint8}}, DevFlag: true,
+		Dev: []fitmodel.DevDef{{Num: 0, Size: 2, Idx: 0}, {Num: 1, Size: 1, Idx: 0}}}
+	unknownDevData := fitmodel.Data(6, []byte{0x07, 0x01, 0x01, 0x05})
+	// a zero-field unknown message with developer fields only
+	unknownDevOnlyDef := fitmodel.Def{Local: 7, Global: 0xFE11, DevFlag: true, Dev: []fitmodel.DevDef{{Num: 0, Size: 3, Idx: 1}}}
+	unknownDevOnlyData := fitmodel.Data(7, []byte{0x02, 0x02, 0x02})
 
 	report := func(e fit.VerifField, fd fitmodel.FieldDef, big bool, ctx string, stream []byte, msg string) {
 		defs := fmt.Sprintf("num=%d size=%d base=%#02x big=%v", fd.Num, fd.Size, fd.Base, big)
@@ -388,7 +395,7 @@ func runC02(w *vx.W) {
 						{
 							om := otherHosted(ftb, m)
 							d := fitmodel.Def{Local: 1, Big: big, Global: m, Fields: []fitmodel.FieldDef{fd}}
-							recs := append(fitmodel.FileIdRecords(0, ftb), unknownDef.Bytes(), unknownData)
+							recs := append(fitmodel.FileIdRecords(0, ftb), unknownDef.Bytes(), unknownData, unknownDevDef.Bytes(), unknownDevData, unknownDevOnlyDef.Bytes(), unknownDevOnlyData)
 							var exps []c02Expect
 							counts := map[uint16]int{}
 							var odata []byte
@@ -405,7 +412,7 @@ func runC02(w *vx.W) {
 									om = nil
 								}
 							}
-							recs = append(recs, d.Bytes(), fitmodel.Data(1, pl), unknownData)
+							recs = append(recs, d.Bytes(), fitmodel.Data(1, pl), unknownDevData, unknownData, unknownDevOnlyData)
 							if om != nil {
 								recs = append(recs, odata)
 								n := 2
